@@ -114,6 +114,14 @@ def conv_pairs(fn, quick):
     return prs[:2] if quick == 1 else prs
 
 
+NARROW_WIDE = {'Float': ('float32', 'float64'), 'Signed': ('int8', 'int64'), 'Unsigned': ('uint8', 'uint64')}
+
+
+def big_pairs(fn):
+    sf, df = fn.split('As')
+    return [(NARROW_WIDE[sf][0], NARROW_WIDE[df][0]), (NARROW_WIDE[sf][1], NARROW_WIDE[df][1])]
+
+
 prop('C03',
      harnesses=[
          {'name': 'C03_Append', 'types': {'quick': QUICK_T, 'thorough': ALL},
@@ -131,6 +139,8 @@ prop('C05', opts={'abstract_fp': True},
      harnesses=[{'name': 'C05_' + fn, 'types': {'quick': conv_pairs(fn, 1), 'thorough': conv_pairs(fn, 0)},
                  'params': {'quick': {'MaxC': 2, 'MaxK': 2, 'Unaligned': 1}, 'thorough': {'MaxC': 3, 'MaxK': 2, 'Unaligned': 1}},
                  'covers': ['converted', 'untouched']} for fn in CONVS] +
+     [{'name': 'C05_Big_' + fn, 'types': {'quick': big_pairs(fn), 'thorough': conv_pairs(fn, 2) + big_pairs(fn)},
+       'params': {'quick': {'BigFrames': 600}, 'thorough': {'BigFrames': 4096}}, 'covers': ['big']} for fn in CONVS] +
      [{'name': 'C05_FloatAsFloatValue', 'types': [(a, b) for a in FLOATS for b in FLOATS], 'opts': {'abstract_fp': False}}],
      bounds={'quick': 'source and destination: every window of buffers with 1..2 channels and 0..2 frames, plus 0..C-1 extra samples on either side (unaligned lengths); sample values and witness positions symbolic; 2 type pairs per conversion; FloatAsFloat value preservation for all float32/float64 bit patterns (4 pairs)',
              'thorough': '1..3 channels, 0..2 frames; all 169 instantiations'},
@@ -141,6 +151,8 @@ NAMED = ['NamedInt8', 'NamedInt16', 'NamedInt32', 'NamedInt64', 'NamedInt', 'Nam
 prop('C13', opts={'lazy_make': True},
      harnesses=[{'name': 'C13_Alloc', 'types': {'quick': QUICK_T + ['NamedInt8', 'NamedUint16', 'NamedFloat32', 'NamedInt'], 'thorough': ALL + NAMED},
                  'params': {'quick': {'MaxAllocC': 8, 'MaxAllocK': 4096}, 'thorough': {'MaxAllocC': 64, 'MaxAllocK': 65536}}, 'covers': ['nonempty']},
+                {'name': 'C13_Small', 'types': {'quick': ['int32', 'float64', 'NamedInt16'], 'thorough': ALL + NAMED}, 'covers': ['small'],
+                 'opts': {'lazy_make': False, 'fallbacks': 24}},
                 {'name': 'C13_Length', 'types': {'quick': ['int8', 'float64'], 'thorough': QUICK_T},
                  'params': {'quick': {'MaxLemmaC': 3, 'MaxLemmaK': 8}, 'thorough': {'MaxLemmaC': 4, 'MaxLemmaK': 16}}}],
      bounds={'quick': 'channels 1..8 (case split), 0 <= L <= K <= 4096 symbolic, witness positions symbolic over the whole capacity; 5 built-in and 4 named element types; per-channel Length() (floating-point ceil) for C<=3, K<=8',
@@ -226,14 +238,6 @@ prop('C12',
      level_note='The reference model uses Go append/copy/slice expressions, which are primitives of the encoder (and of the native replay), so growth capacities agree by construction. Append is compared only for frame-aligned operands (what capacity trimming does to an unaligned total is specified nowhere); sources overlapping the destination spare capacity are included (Go append has copy semantics).',
      outside=['more than 4 live views / larger shapes', 'Append with unaligned lengths (unspecified)', 'more than one growth per step'])
 
-NARROW_WIDE = {'Float': ('float32', 'float64'), 'Signed': ('int8', 'int64'), 'Unsigned': ('uint8', 'uint64')}
-
-
-def big_pairs(fn):
-    sf, df = fn.split('As')
-    return [(NARROW_WIDE[sf][0], NARROW_WIDE[df][0]), (NARROW_WIDE[sf][1], NARROW_WIDE[df][1])]
-
-
 prop('C18', opts={'abstract_fp': True, 'pool_mode': 'hit'},
      harnesses=[{'name': 'C18_Ops', 'types': {'quick': ['int8', 'uint64', 'float32', 'float64'], 'thorough': ALL},
                  'params': {'quick': {'MaxC': 2, 'MaxK': 2}, 'thorough': {'MaxC': 3, 'MaxK': 3}},
@@ -272,8 +276,8 @@ prop('C11', opts={'threads': True, 'pool_mode': 'all'}, race_replay=True, stress
      outside=['sync.Pool internals, scheduler, GC', 'G > 3 goroutines, M > 2 cycles', 'larger buffers'])
 
 F2I = [('FloatAsSigned', INTS_S), ('FloatAsUnsigned', INTS_U)]
-F2I_Q = {'FloatAsSigned': [('float64', 'int8'), ('float64', 'int16'), ('float32', 'int32'), ('float64', 'int64')],
-         'FloatAsUnsigned': [('float32', 'uint8'), ('float64', 'uint16'), ('float64', 'uint32'), ('float32', 'uint64')]}
+F2I_Q = {'FloatAsSigned': [('float64', 'int8'), ('float64', 'int16'), ('float32', 'int32'), ('float64', 'int64'), ('float32', 'int')],
+         'FloatAsUnsigned': [('float32', 'uint8'), ('float64', 'uint16'), ('float64', 'uint32'), ('float32', 'uint64'), ('float64', 'uintptr')]}
 
 
 def f2i_pairs(fn, ints, quick):
@@ -327,3 +331,11 @@ prop('C17', opts={'mode': 'value'},
 for _p, _st in (('C03', ['growcap']), ('C12', ['growcap']), ('C10', ['growcap']), ('C08', ['f2i', 'intfloat']), ('C09', ['f2i', 'intfloat']),
                 ('C17', ['f2i', 'intfloat']), ('C01', ['f2i']), ('C05', ['f2i'])):
     PROPS[_p]['selftest'] = _st
+
+for _p in ('C06', 'C07', 'C08', 'C09'):
+    # layout 2 of conv2 only needs the recycled buffer (pool hit); the miss case is a fresh buffer = layout 0
+    PROPS[_p].setdefault('opts', {})
+    PROPS[_p]['opts'] = dict(PROPS[_p]['opts'], pool_mode='hit')
+    for _h in PROPS[_p]['harnesses']:
+        if 'opts' in _h:
+            _h['opts'] = dict(_h['opts'], pool_mode='hit')
